@@ -54,6 +54,8 @@ def run(ctx):
         ctx.ob('C06.byte-order', 'USBDataPacketDeserializer.packet[%d]' % i, ok, ds[0].loc if ds else None,
                'packet[%d] must be loaded from captured byte %d: %s' % (i, i, [q.fmt(d) for d in ds]))
 
+    _length_exact(ctx, ir, 8)
+
     # ---- (c)(d)(e) setup decoder
     sd = ctx.ir('USBSetupDecoder', 'usb2.request')
     f = ctx.the_fsm(sd)
@@ -74,7 +76,9 @@ def run(ctx):
         ctx.ob('C06.received-guard', 'USBSetupDecoder.packet.received', ok, a.loc,
                'packet.received only in the state after a SETUP token, under new_packet & length == 8: %s' % q.fmt(a))
     want = {
-        'Cat(self.packet.recipient, self.packet.type, self.packet.is_in_request)': 'data_handler.packet[0]',
+        'self.packet.recipient': 'data_handler.packet[0][0:5]',
+        'self.packet.type': 'data_handler.packet[0][5:7]',
+        'self.packet.is_in_request': 'data_handler.packet[0][7:8]',
         'self.packet.request': 'data_handler.packet[1]',
         'self.packet.value': 'Cat(data_handler.packet[2], data_handler.packet[3])',
         'self.packet.index': 'Cat(data_handler.packet[4], data_handler.packet[5])',
@@ -210,3 +214,63 @@ def _role2(f, st, idle, read_states):
     if st == idle:
         return 'idle'
     return 'delay'
+
+
+def _length_exact(ctx, ir, mps):
+    """`new_packet` reports a packet of exactly `length` data bytes: the one-cycle relation of USBDataPacketDeserializer
+    (restricted to the cone of influence of new_packet / length and its FSM) is composed with a reference monitor -- the
+    number of bytes the PHY has delivered since rx_active rose -- and every reachable product state is explored under all
+    values of rx_active / rx_valid and under a CRC input that may or may not match.  Whenever the next new_packet is 1, the
+    next length may be 8 (what the setup decoder tests for) only if (bytes delivered) - 1 PID - 2 CRC is 8.  Every byte is the constant 0xC3
+    (a well-formed DATA0 PID; as a data byte its value is irrelevant to the count)."""
+    from ..num import Stepper, NoEval
+    from ..ir import AnalysisError
+    RXA, RXV, RXD = 'self.utmi.rx_active', 'self.utmi.rx_valid', 'self.utmi.rx_data'
+    NP, LEN = 'self.new_packet', 'self.length'
+    try:
+        st = Stepper(ir)
+        cone = st.restrict({NP, LEN})
+    except AnalysisError as ex:
+        ctx.need(False, 'one-cycle semantics of USBDataPacketDeserializer (%s)' % ex)
+    free = sorted(n for n in cone if n not in st.regs and n not in st.comb_sigs and n not in (RXA, RXV, RXD))
+    ctx.need(len(free) <= 1, 'USBDataPacketDeserializer: inputs other than the UTMI receive signals and the running CRC (%s)' % free)
+    BYTE, WORD = 0xC3, 0xC3C3
+    crc_vals = (WORD, 0) if free else (None,)
+    fkeys = sorted(k for k in ('$fsm%s' % f.id for f in ir.fsms))
+    regs0 = tuple(st.inits.get(r, 0) for r in st.regs) + tuple(f.init for f in ir.fsms)
+    CAP = mps + 6
+    # environment (UTMI): RxValid is only raised while RxActive is, and not in the very cycle RxActive rises (the PHY needs
+    # the SYNC pattern first) -- the monitor remembers whether RxActive was high in the previous cycle
+    seen, work, bad, raised, n_eval = {(regs0, 0, 0)}, [(regs0, 0, 0)], None, 0, 0
+    names = list(st.regs) + fkeys
+    while work and bad is None:
+        regs, n, was_active = work.pop()
+        for act, val in ((0, 0), (1, 0), (1, 1)):
+            if val and not was_active:
+                continue
+            for cv in crc_vals:
+                env = dict(zip(names, regs))
+                env.update({RXA: act, RXV: val, RXD: BYTE, '$w:' + RXD: 8})
+                if cv is not None:
+                    env[free[0]] = cv
+                try:
+                    cur, nxt = st.step(env)
+                except NoEval as ex:
+                    ctx.need(False, 'USBDataPacketDeserializer evaluates under the UTMI receive signals alone (%s)' % ex)
+                n_eval += 1
+                if nxt.get(NP):
+                    raised += 1
+                    # only the length the setup decoder tests for is part of C06: a packet reported as 8 bytes long is one
+                    # (what `length` says for a runt -- fewer than PID + 2 CRC bytes -- is not: the decoder ignores it)
+                    if nxt.get(LEN) == mps and n - 3 != mps and bad is None:
+                        bad = 'new_packet is raised with length %s after the PHY delivered %d byte(s) in this packet (PID + %d data ' \
+                              'byte(s) + 2 CRC bytes)' % (nxt.get(LEN), n, n - 3)
+                n2 = 0 if not act else min(n + val, CAP)
+                nx = (tuple(nxt[k] for k in names), n2, act)
+                if nx not in seen:
+                    seen.add(nx)
+                    work.append(nx)
+    ctx.need(bad is not None or raised > 0, 'product exploration of USBDataPacketDeserializer reaches a reported packet')
+    ctx.ob('C06.length-exact', 'USBDataPacketDeserializer.length[mps%d]' % mps, bad is None, ir.drivers(LEN, exact=True)[0].loc,
+           'a packet reported as 8 bytes long (the only length the setup decoder accepts) carried exactly 8 data bytes: %s  [%d product states, %d evaluations, registers in the cone: %s]' % (
+               bad, len(seen), n_eval, ', '.join(st.regs)))
